@@ -82,13 +82,15 @@ def _f(w):
 @matcher("inplace-commit-before-dependant-preparer")
 def _m_inplace_dependant_preparer(w):
     """
-    C04: an in-place operation commits its own attribute and then resets an `invalidated_by` dependant, whose default is
-    re-prepared by a user preparer; if that preparer raises, the primary change stays. Narrow: only the receiver changed, the
-    fault was injected in a preparer / item preparer of a *dependant* attribute (not an attribute the call targets).
+    C04: an in-place *element helper* edits the live collection and then resets an `invalidated_by` dependant, whose default
+    is re-prepared by a user preparer; if that preparer raises, the edit of the collection stays (scalar writes and deletions
+    are rolled back since e85e4ae). Narrow: element helper, in place, only the receiver changed, the fault was injected in
+    a preparer / item preparer of a *dependant* attribute (not an attribute the call targets).
     """
     f = _f(w)
     return (
         w["monitor"] == "raise_leaves_state_unchanged"
+        and f.get("hkind") in ("with_item", "update_item", "transform_item", "without_item")
         and f.get("inplace") is True
         and f.get("has_invalidated_by") is True
         and f.get("callback") in ("prep", "iprep")
@@ -100,14 +102,15 @@ def _m_inplace_dependant_preparer(w):
 @matcher("abort-inside-copy-protection-bookkeeping")
 def _m_abort_in_bookkeeping(w):
     """
-    C20: an exception injected at a line *inside* _modules_copyable.__new__/__enter__/__exit__ (between the reference-count
-    update and the dispatch-table write) leaves the table entry or the count behind. Only failpoints located in those three
-    functions match; a leak after an abort anywhere else, or in any run without injected faults, is still a violation.
+    C20: an exception injected at the first statements of _modules_copyable.__exit__ - after `with` has called it, before
+    the release has begun - leaves the count (and with it the table entry) behind: nothing __exit__ could do has run yet.
+    (Since repair of the bookkeeping every other abort point inside __new__/__enter__/__exit__/_release_to is rolled back
+    or completed, and a leak there - or after an abort anywhere else, or in a run without injected faults - is a violation.)
     """
     f = _f(w)
     return (
         w["monitor"] == "dispatch_table_restored"
         and f.get("phase") == "line_failpoint"
-        and f.get("fault_in_protection_bookkeeping") is True
-        and str(f.get("fault_at", "")).startswith("utils/mutation.py:")
+        and f.get("fault_before_release_begins") is True
+        and str(f.get("fault_at", "")) == "utils/mutation.py:__exit__"
     )
